@@ -506,6 +506,8 @@ fn wait_counts(dbs: &Arc<Databases>, want: &BTreeMap<String, usize>) -> BTreeMap
     }
 }
 
+static HTTP_INSIDE: std::sync::atomic::AtomicU64 = std::sync::atomic::AtomicU64::new(0);
+
 fn transports(v: &Verdicts, sessions: usize, rng: &mut Rng) -> (u64, BTreeSet<String>) {
     let mut shapes = BTreeSet::new();
     let dir = fresh_dir("c17-live");
@@ -524,7 +526,14 @@ fn transports(v: &Verdicts, sessions: usize, rng: &mut Rng) -> (u64, BTreeSet<St
         adm.call(&live.dbs, "create-db d1 tok");
     }
     let mut n = 0u64;
-    let zero: BTreeMap<String, usize> = DBS.iter().map(|d| (d.to_string(), 0usize)).collect();
+    // a resident session on the first database for the whole part: counts never start from zero there, so a count that
+    // is one too low is visible (a counter that saturates at zero hides it)
+    let mut resident = TcpClient::connect(&live.tcp).ok();
+    if let Some(c) = resident.as_mut() {
+        c.send(format!("use-db {} tok\n", DBS[0]).as_bytes());
+        let _ = c.read_until("ok", Duration::from_secs(10));
+    }
+    let zero: BTreeMap<String, usize> = DBS.iter().map(|d| (d.to_string(), if *d == DBS[0] && resident.is_some() { 1usize } else { 0usize })).collect();
     let base = wait_counts(&live.dbs, &zero);
     let base: BTreeMap<String, usize> = base.iter().map(|(k, v)| (k.clone(), v.0)).collect();
     let mut i = 0;
@@ -645,9 +654,20 @@ fn transports(v: &Verdicts, sessions: usize, rng: &mut Rng) -> (u64, BTreeSet<St
             }
             _ => {
                 for lines in &plans {
-                    // the count the request itself observes is the last entry of the reply
+                    // the count the request itself observes is the last entry of the reply: the sessions that are open
+                    // besides it (the resident one) plus the request's own session, on the database it selected last
                     let body = format!("{};get $connections", lines.join(";"));
-                    let _ = http_post(&live.http, body.as_bytes(), Duration::from_secs(10));
+                    let reply = http_post(&live.http, body.as_bytes(), Duration::from_secs(10));
+                    let selected: Option<String> = lines.iter().filter(|l| l.ends_with(" tok")).last().map(|l| l.split(' ').nth(1).unwrap().to_string());
+                    if let (Ok(reply), Some(d)) = (&reply, &selected) {
+                        let last = reply.trim_end().rsplit(';').next().unwrap_or("").trim().to_string();
+                        let want = format!("value {}", base[d] + 1);
+                        HTTP_INSIDE.fetch_add(1, std::sync::atomic::Ordering::SeqCst);
+                        if last != want {
+                            during_ok = false;
+                            during_detail = format!("request '{}' answered '{}': its own reading of $connections is '{}', expected '{}'", body, reply.trim_end(), last, want);
+                        }
+                    }
                 }
             }
         }
@@ -666,6 +686,7 @@ fn transports(v: &Verdicts, sessions: usize, rng: &mut Rng) -> (u64, BTreeSet<St
         }
     }
     TCP_RESETS.store(resets, std::sync::atomic::Ordering::SeqCst);
+    drop(resident);
     (n, shapes)
 }
 
@@ -754,6 +775,7 @@ pub fn run(tier: &str) -> i32 {
     ev.set("cluster_rejoin_full_syncs_onto_a_node_with_sessions_already_on_the_database", json!(cl_full_early));
     ev.set("transport_sessions", json!(tr_sessions));
     ev.set("tcp_sessions_ended_by_a_connection_reset", json!(TCP_RESETS.load(std::sync::atomic::Ordering::SeqCst)));
+    ev.set("http_requests_whose_own_reading_of_the_count_was_judged", json!(HTTP_INSIDE.load(std::sync::atomic::Ordering::SeqCst)));
     ev.set("transport_burst_shapes", json!(tr_shapes.len()));
     ev.set("known_findings_seen", json!(v.known_seen()));
     ev.violations = v.violation_count();
